@@ -45,6 +45,8 @@ func rulesC02(c *Ctx) {
 	ruleC02Parse(c)
 	ruleSortFieldsVerbatim(c, "C02.SORTFIELDS")
 	ruleBoundedResultTree(c, "C02.BOUNDEDPAGE", "boltz")
+	ruleSortWhole(c, "C02.SORTWHOLE", "boltz")
+	ruleCacheKey(c, "C02.CACHEKEY", "boltz")
 	ruleC02Scanner(c)
 	rulePageMatch(c, "C02.PAGEMATCH", "boltz")
 	// sort keys are decoded from the stored bytes: width/sign of every fixed-width decode
